@@ -171,6 +171,30 @@ class C13(Property):
         for k in (1, 2, 3):
             for combo in itertools.product(rawd, repeat=k):
                 cases.append(Case("cpops " + " ".join(combo + (PROBE_TOKS,)), tags=("exhaustive-raw-difficulty-points",)))
+        # LONG lists (20-60 distinct times) and then adds at already occupied times, near the end, in the middle and at the front, with
+        # lookups everywhere: anything that treats the newest points specially shows only beyond its window (seed C13-s: a 16-point window
+        # whose replace arm forgot the offset)
+        for _ in range(40 if tier == "quick" else 1500):
+            n = rng.choice([17, 18, 20, 33, 40, 60])
+            times = [float(100 * i) for i in range(n)]
+            kind = rng.choice("TDES")
+            def tok(k, t, alt):
+                if k == "T":
+                    return f"T:{bits(t)}:{bits(300.0 if alt else 500.0)}"
+                if k == "D":
+                    return f"D:{bits(t)}:{bits((4.0 if alt else 2.0) if int(t / 100) % 2 else (3.0 if alt else 0.5))}:1"
+                if k == "E":
+                    return f"E:{bits(t)}:{(int(t / 100) + (1 if alt else 0)) % 2}:{bits(1.0)}"
+                return f"S:{bits(t)}:{1 + (int(t / 100) + (1 if alt else 0)) % 3}:{40 + int(t / 100) % 50}:0"
+            toks = [tok(kind, t, False) for t in times]
+            if rng.random() < 0.3:
+                rng.shuffle(toks)
+            for _ in range(rng.choice([1, 2, 4])):
+                i = rng.choice([n - 1, n - 2, n - 5, n - 16, n - 17, n // 2, 0, 1, rng.randrange(n)])
+                toks.append(tok(kind, times[i], True))
+                toks += ["?" + bits(times[j]) for j in sorted({i, max(0, i - 1), min(n - 1, i + 1), n - 1, n - 5 if n > 5 else 0})]
+            toks += ["?" + bits(t + 50.0) for t in times[::3]] + ["?" + bits(-1.0)]
+            cases.append(Case("cpops " + " ".join(toks), tags=("long-list-replace",)))
         # F8 witnesses and neighbours
         for a, b in [(PZERO, NZERO), (NZERO, PZERO), (PZERO, PZERO), (NZERO, NZERO)]:
             for kind in "TDES":
